@@ -337,6 +337,38 @@ def c08(res, tier, seed):
         sgroups.append({"src": src, "bufs": bufs})
     failing_saves(res, tier, wd, imgs[2], r)
     audit_recs, audit_owners = [], []
+    # (1b) section sizes around 64 KiB (metadata entries are 32 bytes: 2048 of them fill 65536 bytes exactly) and two images in one stream
+    exe_a = yv.driver("asan")
+    lines = ["init"]
+    ks = [2047, 2048, 2049, 4096] if tier == "quick" else [1, 1023, 1024, 2047, 2048, 2049, 4095, 4096, 4097, 6144, 8192]
+    for k in ks:
+        src = "rule big { meta: %s condition: true }" % " ".join("m%d = %d" % (i, i) for i in range(k))
+        lines += ["note k%d" % k, "compiler 0", "add 0 - " + yv.hx(src.encode()), "getrules 0 0", "cdestroy 0", "save 0 %s/sz.yarc" % wd, "savestream 0 %s/sz2.yarc" % wd, "rdestroy 0",
+                  "load 0 %s/sz.yarc" % wd, "rdestroy 0"]
+    names = [n for n, _ in CORPUS][:6]
+    for i, (a_, b_) in enumerate(zip(names, names[1:] + names[:1])):
+        open("%s/two_%d.yarc" % (wd, i), "wb").write(imgs[0][a_] + imgs[0][b_])
+        lines += ["note t%d" % i, "loadstream2 0 1 %s/two_%d.yarc" % (wd, i), "rdestroy 0", "rdestroy 1"]
+    lines.append("finalize")
+    run = yv.run_script(exe_a, lines, wd, name="c08_sizes")
+    if not run.complete:
+        res.violation("section sizes / two images in one stream: %s" % yv.crash_summary(run), yv.save_replay("C08", "sizes_crash", {"crash": yv.crash_summary(run), "script": run.script_path}))
+    cur, acc = None, {}
+    for e in run.events:
+        if e["e"] == "Note": cur = e["text"]; acc[cur] = {}
+        elif cur and e["e"] == "Save": acc[cur]["savestream" if e.get("via") == "savestream" else "save"] = e["ret"]
+        elif cur and e["e"] == "Load": acc[cur]["load"] = e["ret"]
+        elif cur and e["e"] == "Load2": acc[cur].update(e)
+    audit_recs2, audit_owners2 = [], []
+    for key, v in acc.items():
+        if key.startswith("k") and {"save", "savestream", "load"} <= set(v):
+            audit_recs2.append({"kind": "savesize", "n": int(key[1:]), "save": v["save"], "savestream": v["savestream"], "load": v["load"]})
+            audit_owners2.append(("a rule with %s metadata entries" % key[1:], "asan", v)); res.count(1, ("savesize", key))
+        elif key.startswith("t") and "ret1" in v:
+            i = int(key[1:])
+            audit_recs2.append({"kind": "load2", "ret1": v["ret1"], "pos1": v["pos1"], "len1": len(imgs[0][names[i]]), "ret2": v["ret2"]})
+            audit_owners2.append(("images of %s and %s back to back in one stream" % (names[i], (names[1:] + names[:1])[i]), "asan", v)); res.count(1, ("load2", key))
+    audit_recs += audit_recs2; audit_owners += audit_owners2
     for (cname, variant, au) in corpus_audits:
         if "loadret" in au:
             # a complete image written by the library loads (ArenaFile!LoadBytes at the full length)
